@@ -35,7 +35,7 @@ PROPS = {
             "liveness is restated as bounded progress in logical units (entries consumed by the stream), not wall time",
         ],
         "legs": [
-            native("c04_flush", ["secs=14"], ["secs=170", "m3len=11"]),
+            native("c04_flush", ["secs=22"], ["secs=170", "m3len=11"]),
             miri("c04_flush", 12, 48, [0, 1, 2], [0, 1, 2, 3, 4, 5]),
             native("c04_flush", t=["secs=60", "lanes=3", "monitor=12"], name="tsan", flavour="tsan", tiers=("thorough",)),
         ],
